@@ -101,3 +101,11 @@ META["C06"] = dict(
     level_text="Exploration: per case 2..4 witness channels carry verified traffic while 8..120 victim channels are ended by Free, SendAndClose, handler return, handler error or handler panic at drawn points while their peer is still sending; the connection must stay open and usable, witnesses complete and uncorrupted, and the log free of library panics and connection-level errors. A wire-level peer additionally sends data/window/close frames (single and batched, extreme deltas) for ended and unknown channel ids to a real server and a real client, after which a fresh channel must still work.",
     level_note="Race windows are hit statistically (the lookup/acquire race this property is about reproduces within seconds when the repair is reverted); no schedule enumeration.",
 )
+
+META["C11"] = dict(
+    engine="net",
+    design_ref="DESIGN.md 3/C11",
+    technique="fuzzing / property-based testing with a scripted raw TCP peer: generated handshake variations and grammar-mutated post-handshake frame sequences against a real server, with a well-behaved real client on a second connection as the confinement oracle",
+    level_text="Exploration: 15 handshake variations (each required to occur) followed by marked channel opens, and post-handshake scripts of up to 25 frames with unknown codes, missing ids, nested batches, duplicate ids, extreme window deltas, structurally corrupted encodings, truncated and oversized frames and open bursts. Oracle: no handler ever runs for a marker sent on a connection whose handshake did not complete with the protocol line and a common version; a violating or refused connection is closed; the server keeps running and a healthy client on another connection keeps echoing correctly with its connection open.",
+    level_note="Handler absence is checked after the socket closes (or after a grace period for the keep-waiting variants: miss-only direction). Process death is attributed by the driver to the journaled case.",
+)
